@@ -83,6 +83,26 @@ class TierHistory:
                     pts.append(x)
             ents = [(t, self.label()) for t in pts]
             klass = self.P
+        if self.hostile and klass is self.I and len(ents) >= 2 and r.random() < 0.12:
+            # arbitrary entry lists: overlaps (also by a few ulps), degenerate and reversed intervals, unsorted input.
+            # A sound constructor raises or repairs; it never hands back an ill-formed tier.
+            import math
+
+            i = r.randrange(len(ents) - 1)
+            a, b = ents[i], ents[i + 1]
+            kind = r.choice(["ulp-overlap", "ulp-overlap", "overlap", "degenerate", "reversed", "unsorted", "rel-1e-15-overlap"])
+            if kind == "ulp-overlap":
+                ents[i + 1] = (math.nextafter(a[1], 0), b[1], b[2])
+            elif kind == "rel-1e-15-overlap":
+                ents[i + 1] = (a[1] * (1 - 2e-15) if a[1] > 0 else a[1], b[1], b[2])
+            elif kind == "overlap":
+                ents[i + 1] = ((a[0] + a[1]) / 2, b[1], b[2])
+            elif kind == "degenerate":
+                ents[i] = (a[0], a[0], a[2])
+            elif kind == "reversed":
+                ents[i] = (a[1], a[0], a[2])
+            else:
+                ents[i], ents[i + 1] = ents[i + 1], ents[i]
         if r.random() < 0.15:
             ents = [list(e) for e in ents]  # lists instead of tuples
         lo = r.choice([0.0, 0.0, None, self.src(self.hi) / 4])
